@@ -255,9 +255,8 @@ func c16MakeOp(c *core.Case) *c16Op {
 				if d := r.Range(1, 2); base.H+d <= hhi && base.H+d <= 35 { // nested single-zoom IDs: a child (or grandchild) of the base
 					ch := descendant(r, base, base.H+d, base.V+d)
 					ids = append(ids, ch)
-					if r.Bool() { // child listed before its parent
+					if r.Bool() { // child listed before its parent (the base stays the coarsest ID: the nesting depth is at most 2)
 						ids[0], ids[len(ids)-1] = ids[len(ids)-1], ids[0]
-						base = ids[0]
 					}
 					continue
 				}
@@ -316,7 +315,8 @@ func c16MakeOp(c *core.Case) *c16Op {
 		return &c16Op{name: "ChangeExtendedSpatialIdsZoom", sizes: []int{len(base)}, dedup: true, call: listCall("ids", base, func(l []string) ([]string, error) { return integrate.ChangeExtendedSpatialIdsZoom(l, H, V) })}
 	case 2: // zoom change, spatial
 		ids := mkIDs(1, 33, 1, 33, true)
-		Z := clampI(ids[0].H+r.Range(-3, 2), 0, 35)
+		mz, _ := minZ(ids) // relative to the coarsest ID of the list, so that the expansion stays within 8^2 per ID
+		Z := clampI(mz+r.Range(-3, 2), 0, 35)
 		base := ref.Spatials(ids)
 		keyStrings(c, base)
 		c.KI(Z)
